@@ -250,6 +250,206 @@ let do_spec (rest : string) : string =
     String.concat " ; " ("opened" :: outs)
   | _ -> failwith "bad SPEC"
 
+
+(* ---------- K-trace: replay of an observed event log on the L2 model ---------- *)
+exception Mismatch of string
+
+let str_vis (v : vis) : string = match v with
+  | VCreate id -> "create " ^ string_of_n id
+  | VWrite (c, id, len, ok) -> Printf.sprintf "%s write %s %s %s" (if c then "c" else "w") (string_of_n id) (string_of_n len) (if ok then "ok" else "fail")
+  | VSync (id, ok) -> Printf.sprintf "w sync %s %s" (string_of_n id) (if ok then "ok" else "fail")
+  | VUnlink (id, ok) -> Printf.sprintf "w unlink %s %s" (string_of_n id) (if ok then "ok" else "fail")
+  | VCallback (c, ok) -> Printf.sprintf "w cb %s %s" (string_of_n c) (if ok then "ok" else "fail")
+  | VResult r -> "ret " ^ str_result r
+
+let rec nat_of_int (i : int) : nat = if i <= 0 then O else S (nat_of_int (i - 1))
+
+(* all (state, visible event) pairs the worker can reach next through silent steps;
+   [ok] is the result of the system call if the visible event is one *)
+let rec worker_next (z : sys2) (ok : bool) (depth : int) : (sys2 * vis) list =
+  if depth > 5000 then [] else
+  let w = z.z_w in
+  if not w.w_alive then []
+  else match w.w_batch with
+    | Some _ ->
+      (match zstep z (ZWork ok) with
+       | None -> []
+       | Some (z', []) -> worker_next z' ok (depth + 1)
+       | Some (z', v :: _) -> [(z', v)])
+    | None ->
+      (* receive: every enabled batch composition *)
+      let qlen = List.length z.z_queue in
+      let res = ref [] in
+      for k = qlen downto 0 do
+        List.iter (fun nf ->
+            match zstep z (ZRecv (nat_of_int k, nf)) with
+            | None -> ()
+            | Some (z', _) -> res := !res @ worker_next z' ok (depth + 1)) [true; false]
+      done;
+      !res
+
+(* silent progress to a quiet worker with an empty queue; [] if a visible event would be next *)
+let rec worker_quiesce (z : sys2) (depth : int) : sys2 list =
+  if depth > 5000 then [] else
+  let w = z.z_w in
+  if not w.w_alive then [z]
+  else match w.w_batch with
+    | Some _ ->
+      (match zstep z (ZWork true) with
+       | None -> []
+       | Some (z', []) -> worker_quiesce z' (depth + 1)
+       | Some (_, _ :: _) -> [])
+    | None ->
+      if z.z_queue = [] then [z]
+      else begin
+        let qlen = List.length z.z_queue in
+        let res = ref [] in
+        for k = qlen downto 0 do
+          List.iter (fun nf ->
+              match zstep z (ZRecv (nat_of_int k, nf)) with
+              | None -> ()
+              | Some (z', _) -> res := !res @ worker_quiesce z' (depth + 1)) [true; false]
+        done;
+        !res
+      end
+
+(* run the worker to completion without faults, collecting nothing (used at drop/end) *)
+let rec worker_finish (z : sys2) (depth : int) : sys2 =
+  if depth > 100000 then z else
+  let w = z.z_w in
+  if not w.w_alive then z
+  else match w.w_batch with
+    | Some _ -> (match zstep z (ZWork true) with None -> z | Some (z', _) -> worker_finish z' (depth + 1))
+    | None ->
+      if z.z_queue = [] then z
+      else (match zstep z (ZRecv (O, false)) with None -> z | Some (z', _) -> worker_finish z' (depth + 1))
+
+let disk_listing (d : disk) : string =
+  String.concat "," (List.map (fun f -> string_of_n f.f_id ^ ":" ^ hex_of_bytes f.f_data) d)
+let synced_listing (d : disk) : string =
+  String.concat "," (List.map (fun f -> Printf.sprintf "%s:%d:%s" (string_of_n f.f_id) (List.length f.f_data) (string_of_n f.f_synced)) d)
+
+let starts_with (s : string) (p : string) : bool =
+  String.length s >= String.length p && String.sub s 0 (String.length p) = p
+let after (s : string) (p : string) : string =
+  String.trim (String.sub s (String.length p) (String.length s - String.length p))
+
+(* depth-first replay; returns the list of snapshot descriptions on success *)
+let rec replay (z : sys2) (evs : (int * string) list) (snaps : string list) : string list option =
+  match evs with
+  | [] -> Some (List.rev snaps)
+  | (i, e) :: rest ->
+    let fail msg = raise (Mismatch (Printf.sprintf "event %d `%s`: %s" i (if String.length e > 160 then String.sub e 0 160 else e) msg)) in
+    if not z.z_w.w_alive && not (starts_with e "c end") then Some (List.rev ("worker-dead" :: snaps))
+    else if starts_with e "c call " then begin
+      match p_op (after e "c call ") with
+      | Disk -> fail "unsupported op in trace"
+      | Op o ->
+        (match zstep z (ZCall o) with
+         | None -> fail "model: call not enabled (panic or call in progress)"
+         | Some (z', vs) ->
+           let want = (match vs with VResult r :: _ -> str_result r | _ -> "?") in
+           (* effects until the matching ret *)
+           let rec effs z rest =
+             match rest with
+             | (j, e2) :: rest' when starts_with e2 "c ret " ->
+               (* remaining effects must be silent *)
+               let rec drain z = match zstep z ZEff with
+                 | None -> z
+                 | Some (z', []) -> drain z'
+                 | Some (_, v :: _) -> raise (Mismatch (Printf.sprintf "event %d: model expects caller effect `%s` before the call returns" j (str_vis v))) in
+               let got = after e2 "c ret " in
+               if got <> want then raise (Mismatch (Printf.sprintf "event %d: result differs: implementation `%s` / model `%s`" j
+                                                       (if String.length got > 300 then String.sub got 0 300 else got)
+                                                       (if String.length want > 300 then String.sub want 0 300 else want)));
+               replay (drain z) rest' snaps
+             | (j, e2) :: rest' when starts_with e2 "c create " || starts_with e2 "c write " ->
+               (* next visible caller effect; silent sends before it are performed first *)
+               let rec step z = match zstep z ZEff with
+                 | None -> raise (Mismatch (Printf.sprintf "event %d `%s`: model has no pending caller effect" j e2))
+                 | Some (z', []) -> step z'
+                 | Some (z', v :: _) -> (z', v) in
+               let (z', v) = step z in
+               let obs = (if starts_with e2 "c create " then
+                            (match String.split_on_char ' ' e2 with [_; _; id; _] -> "create " ^ id | _ -> e2)
+                          else e2) in
+               let mv = (match v with VCreate _ -> str_vis v | _ -> str_vis v) in
+               if obs <> mv then raise (Mismatch (Printf.sprintf "event %d: caller effect differs: implementation `%s` / model `%s`" j obs mv));
+               effs z' rest'
+             | (j, e2) :: rest' when starts_with e2 "w " ->
+               (* a worker event while the call is in progress *)
+               let (z', _) = worker_event z j e2 in effs z' rest'
+             | (j, e2) :: _ -> raise (Mismatch (Printf.sprintf "event %d `%s`: unexpected inside a call" j e2))
+             | [] -> raise (Mismatch "log ends inside a call") in
+           effs z' rest)
+    end
+    else if starts_with e "w " then begin
+      (* backtracking over batch compositions *)
+      let ok = not (String.length e >= 4 && String.sub e (String.length e - 4) 4 = "fail") in
+      let cands = List.filter (fun (_, v) -> str_vis v = e) (worker_next z ok 0) in
+      if cands = [] then begin
+        let all = worker_next z ok 0 in
+        fail ("model worker cannot produce this event; it could: [" ^ String.concat " | " (List.map (fun (_, v) -> str_vis v) all) ^ "]")
+      end else begin
+        let rec try_all cs last_err = match cs with
+          | [] -> (match last_err with Some m -> raise (Mismatch m) | None -> None)
+          | (z', _) :: more ->
+            (try (match replay z' rest snaps with Some r -> Some r | None -> try_all more last_err)
+             with Mismatch m -> if more = [] then raise (Mismatch m) else try_all more (Some m)) in
+        try_all cands None
+      end
+    end
+    else if starts_with e "c snap " then begin
+      let obs = after e "c snap disk" in
+      let mine = disk_listing z.z_disk in
+      if String.trim obs <> mine then fail ("directory differs at snapshot: model " ^ (if String.length mine > 400 then String.sub mine 0 400 else mine))
+      else replay z rest (("snap " ^ synced_listing z.z_disk) :: snaps)
+    end
+    else if starts_with e "c idle" then begin
+      match worker_quiesce z 0 with
+      | [] -> fail "model worker still has a visible event to perform, the implementation is idle"
+      | z' :: _ -> replay z' rest snaps
+    end
+    else if starts_with e "c drop" then begin
+      match zstep z ZDrop with
+      | None -> fail "drop not enabled"
+      | Some (z', _) -> replay z' rest snaps
+    end
+    else if starts_with e "c end " then begin
+      let zf = worker_finish z 0 in
+      let obs = after e "c end disk" in
+      let mine = disk_listing zf.z_disk in
+      if z.z_w.w_alive && String.trim obs <> mine then fail ("final directory differs: model " ^ (if String.length mine > 400 then String.sub mine 0 400 else mine))
+      else Some (List.rev (("end " ^ synced_listing zf.z_disk) :: snaps))
+    end
+    else (* c open / c opened / c openlock / c flock / recovery system calls / skipped *)
+      replay z rest snaps
+
+and worker_event (z : sys2) (i : int) (e : string) : sys2 * vis =
+  let ok = not (String.length e >= 4 && String.sub e (String.length e - 4) 4 = "fail") in
+  match List.filter (fun (_, v) -> str_vis v = e) (worker_next z ok 0) with
+  | c :: _ -> c
+  | [] -> raise (Mismatch (Printf.sprintf "event %d `%s`: model worker cannot produce this event" i e))
+
+let do_trace (rest : string) : string =
+  match split_on '|' rest with
+  | [cfg; log] ->
+    let evs = List.filter (fun t -> t <> "") (split_on ';' log) in
+    (* skip the initial open: everything up to and including `c opened` *)
+    let rec skip l = match l with
+      | [] -> []
+      | e :: r -> if e = "c opened" then r else skip r in
+    let evs = skip evs in
+    (match zinit (p_cfg (toks cfg)) [] with
+     | None -> "mismatch: model cannot open an empty directory"
+     | Some z ->
+       (try
+          (match replay z (List.mapi (fun i e -> (i, e)) evs) [] with
+           | Some snaps -> String.concat " ; " ("ok" :: snaps)
+           | None -> "mismatch: no batch composition explains the trace")
+        with Mismatch m -> "mismatch: " ^ m))
+  | _ -> failwith "bad TRACE"
+
 let do_enc (rest : string) : string =
   let r = p_record (toks rest) in
   let b = enc_record r in
@@ -279,6 +479,7 @@ let () =
              | "SPEC" -> do_spec rest
              | "ENC" -> do_enc rest
              | "DEC" -> do_dec rest
+             | "TRACE" -> do_trace rest
              | _ -> "badcase")
           with Failure m -> "driver-error " ^ m
              | Stack_overflow -> "driver-error stack-overflow"
